@@ -287,4 +287,45 @@ theorem tkRun_spec (font : Font) (dec : Decoder) (es : List TKEntry) (acc acc' :
                     obtain ⟨k, r, h1, h2, h3, h4, h5⟩ := this
                     exact ⟨k, r, by omega, h2, h3, h4, h5⟩
 
+/-! ### which dictionary the decoder receives -/
+
+/-- the dictionary `apply_table_patch` hands to the decoder for entry `e`: none for a REPLACE_TABLE
+entry, the base font's table otherwise -/
+def dictFor (font : Font) (e : TKEntry) : Option Bytes := if e.replace then none else font.get e.tag
+
+theorem tkStep_congr_dec (font : Font) (dec dec' : Decoder) (acc : TKAcc) (e : TKEntry)
+    (h : dec acc.calls e.stream (dictFor font e) e.maxLen = dec' acc.calls e.stream (dictFor font e) e.maxLen) :
+    tkStep font dec acc e = tkStep font dec' acc e := by
+  unfold tkStep
+  split
+  · rfl
+  · split
+    · rfl
+    · unfold dictFor at h
+      cases hr : e.replace with
+      | true =>
+        simp only [hr, if_true] at h
+        cases hf : font.get e.tag <;> simp only [h]
+      | false =>
+        simp only [hr, Bool.false_eq_true, if_false] at h
+        cases hf : font.get e.tag with
+        | none => rfl
+        | some base => rw [hf] at h; simp only [h]
+
+theorem tkLoop_congr_dec (p : Bytes) (font : Font) (dec dec' : Decoder)
+    (h : ∀ k (e : TKEntry), dec k e.stream (dictFor font e) e.maxLen = dec' k e.stream (dictFor font e) e.maxLen)
+    (i n : Nat) (acc : TKAcc) : tkLoop p font dec i n acc = tkLoop p font dec' i n acc := by
+  induction n generalizing i acc with
+  | zero => rfl
+  | succ n ih =>
+    unfold tkLoop
+    cases tkEntryAt p i with
+    | error e => rfl
+    | ok ent =>
+      simp only
+      rw [tkStep_congr_dec font dec dec' acc ent (h _ ent)]
+      cases tkStep font dec' acc ent with
+      | error e => rfl
+      | ok acc' => exact ih _ _
+
 end FontVerif.Ift
